@@ -3,6 +3,7 @@ import itertools
 
 import numpy as np
 from hypothesis import strategies as st
+from vf.core import robust_gen
 
 from vf.core import Decline, Prop, Violation, case_hash, innermost_funsor_frame
 from vf.gen import DIAG, G, REAL_POOL, SVALS, WVALS, HypSource, Opts, SeedSource, gauss_leaf
@@ -184,8 +185,8 @@ def cases(tier):
     def _structured(draw):
         return {"kind": "chain", "ast": gen_chain(HypSource(draw), opts)}
 
-    seeded = st.integers(0, 2**40).map(lambda s: {"kind": "chain", "ast": gen_chain(SeedSource(s), opts)})
-    params = st.integers(0, 2**40).map(lambda s: gen_param(SeedSource(s)))
+    seeded = st.integers(0, 2**40).map(robust_gen(lambda s: {"kind": "chain", "ast": gen_chain(SeedSource(s), opts)}))
+    params = st.integers(0, 2**40).map(robust_gen(lambda s: gen_param(SeedSource(s))))
     chain = st.one_of(_structured(), seeded, seeded, seeded)
     return st.one_of(st.tuples(chain, st.sampled_from(MODES)).map(lambda t: dict(t[0], mode=t[1])), params) if True else chain
 
